@@ -1181,3 +1181,84 @@ Proof.
   - intros C. apply map_eq_nil in C. pose proof (skipn_length n rf) as SL. rewrite C in SL. cbn in SL. lia.
   - discriminate.
 Qed.
+
+(** * What the fold of the policies computes *)
+Lemma str_eqb_eq (a b : str) : str_eqb a b = true <-> a = b.
+Proof.
+  unfold str_eqb. revert b. induction a as [|x a IH]; intros [|y b]; split; intros H; try discriminate; try reflexivity.
+  - apply andb_true_iff in H. destruct H as [H1 H2]. apply N.eqb_eq in H1. apply IH in H2. congruence.
+  - inversion H; subst. apply andb_true_iff. split; [apply N.eqb_refl | apply IH; reflexivity].
+Qed.
+
+Lemma kv_lookup_set k k' v d :
+  kv_lookup k' (kv_set k v d) = if str_eqb k' k then Some v else kv_lookup k' d.
+Proof.
+  induction d as [|[k0 v0] d IH]; cbn [kv_set kv_lookup]; [reflexivity|].
+  destruct (str_eqb k k0) eqn:E1; cbn [kv_lookup].
+  - apply str_eqb_eq in E1. subst k0. destruct (str_eqb k' k); reflexivity.
+  - destruct (str_eqb k' k0) eqn:E2.
+    + destruct (str_eqb k' k) eqn:E3; [|reflexivity].
+      apply str_eqb_eq in E2. apply str_eqb_eq in E3. subst. rewrite (proj2 (str_eqb_eq k0 k0) eq_refl) in E1. discriminate.
+    + exact IH.
+Qed.
+
+(** the values given for key [k], in order *)
+Fixpoint values_of (k : str) (ps : list (str * node)) : list node :=
+  match ps with
+  | [] => []
+  | (k', v) :: r => if str_eqb k k' then v :: values_of k r else values_of k r
+  end.
+
+Definition opt_items (o : option node) : items := match o with Some n => node_items n | None => [] end.
+
+Lemma kv_fold_lookup pol k : forall ps d,
+  kv_lookup k (fold_left (kv_add pol) ps d) =
+  fold_left (fun acc v => Some (match acc with Some prev => comb pol prev v | None => v end))
+            (values_of k ps) (kv_lookup k d).
+Proof.
+  induction ps as [|[k' v] ps IH]; intros d; cbn [fold_left values_of]; [reflexivity|].
+  rewrite IH. unfold kv_add at 1. cbn [fst snd]. rewrite kv_lookup_set.
+  destruct (str_eqb k k') eqn:E; [|reflexivity].
+  apply str_eqb_eq in E. subst k'. cbn [fold_left]. reflexivity.
+Qed.
+
+(** 'first': the first value given for the key; 'last': the last one *)
+Theorem kv_first_spec k ps :
+  kv_lookup k (fold_left (kv_add PFirst) ps []) = hd_error (values_of k ps).
+Proof.
+  rewrite kv_fold_lookup. cbn [kv_lookup]. destruct (values_of k ps) as [|v vs]; [reflexivity|].
+  cbn [fold_left hd_error]. generalize v. induction vs as [|w vs IH]; intros v0; [reflexivity|]. apply IH.
+Qed.
+
+Theorem kv_last_spec k ps :
+  kv_lookup k (fold_left (kv_add PLast) ps []) = hd_error (rev (values_of k ps)).
+Proof.
+  rewrite kv_fold_lookup. cbn [kv_lookup comb].
+  assert (G : forall vs (o : option node),
+             fold_left (fun (acc : option node) v => Some (match acc with Some _ => v | None => v end)) vs o =
+             match hd_error (rev vs) with Some v => Some v | None => o end).
+  { induction vs as [|v vs IH]; intros o; [reflexivity|].
+    cbn [fold_left rev]. rewrite IH. destruct (rev vs); cbn [hd_error app]; [destruct o|]; reflexivity. }
+  rewrite G. destruct (hd_error (rev (values_of k ps))); reflexivity.
+Qed.
+
+(** 'concatenate': the entries of all values given for the key, in order *)
+Theorem kv_concat_spec k ps :
+  opt_items (kv_lookup k (fold_left (kv_add PConcat) ps [])) = concat (map node_items (values_of k ps)) /\
+  (kv_lookup k (fold_left (kv_add PConcat) ps []) = None <-> values_of k ps = []).
+Proof.
+  rewrite kv_fold_lookup. cbn [kv_lookup comb].
+  set (step := fun (acc : option node) v =>
+                 Some (match acc with
+                       | Some prev => mk_nodelist (node_pos prev) None (node_items prev ++ node_items v)
+                       | None => v end)).
+  assert (G : forall vs o, opt_items (fold_left step vs o) = opt_items o ++ concat (map node_items vs) /\
+      (fold_left step vs o = None <-> o = None /\ vs = [])).
+  { induction vs as [|v vs IH]; intros o; cbn [fold_left map concat].
+    - rewrite app_nil_r. split; [reflexivity|]. split; [auto | intros [A _]; exact A].
+    - destruct (IH (step o v)) as [A B]. split.
+      + rewrite A. unfold step. destruct o; cbn [opt_items mk_nodelist node_items]; rewrite <- ?app_assoc; reflexivity.
+      + rewrite B. unfold step. split; intros [C D]; discriminate. }
+  destruct (G (values_of k ps) None) as [A B]. split; [exact A|].
+  rewrite B. split; [intros [_ D]; exact D | auto].
+Qed.
